@@ -12,9 +12,6 @@ CONSTANTS
   WithHist = TRUE
   OptChoices <- OptSet
   Rich = TRUE
-INVARIANT FixedPoint
-INVARIANT NoLoss
 INVARIANT UniqueIds
-INVARIANT QuantIdem
 ACTION_CONSTRAINT EmitHist
 CHECK_DEADLOCK FALSE
